@@ -7,7 +7,10 @@ twisted.web.http._GenericHTTPChannelProtocol does) talks over a simulated link
 to an h2 *client* state machine driven by the tape.  1..8 concurrent streams;
 the response side of each stream is a small application that writes a known
 byte pattern in tape-chosen chunks (directly, through a push producer or through
-a pull producer) at tape-chosen moments; the client sends WINDOW_UPDATE
+a pull producer; with Request.write only, or - half of the runs - through a mix
+of Request.write, the channel's ITransport.writeSequence with 1..4 pieces given
+as list / tuple / iterator, empty pieces included, and writes of NO data: empty
+sequence, b"") at tape-chosen moments; the client sends WINDOW_UPDATE
 (stream / connection), SETTINGS (INITIAL_WINDOW_SIZE down to 0, MAX_FRAME_SIZE),
 PRIORITY at tape-chosen moments; both directions are segmented by the tape; the
 server's transport applies back-pressure.  Streams also GO AWAY while the others
@@ -82,7 +85,7 @@ ENGINE = "net"
 LEVEL = "exploration"
 TECHNIQUE = ("deterministic simulation: real H2Connection/H2Stream/Request against a tape-driven h2 client over a segmenting "
              "simulated link; window ledger recomputed from the frame log + h2 client as referee")
-QUICK_RUNS = 6000
+QUICK_RUNS = 5600
 TWIN_P = 0.08   # this share of the runs drives two independent instances of the scenario one after the other (detsim.runner._run_scenario)
 BATCH = 40
 COMPONENTS = {
@@ -99,7 +102,11 @@ COMPONENTS = {
 RULE = ("run = 1..8 GET streams against one H2Connection (initial INITIAL_WINDOW_SIZE 0..100000, transport high-water mark none..70000); "
         "per stream a body of 0 B..~2.5 windows (families: around the window, exactly the window, small, medium, 16-100 kB) written in "
         "tape-chosen chunks (direct writes / push producer, optionally producing inside resumeProducing / pull producer; part of it possibly "
-        "inside process()); 10..160 tape-chosen events among: network move (with cut), send-loop tick (with time passing), new request, "
+        "inside process()); knob entry_points (50% of runs): each stream then either keeps to Request.write or mixes, per write, "
+        "Request.write / request.channel.writeSequence(list|tuple|iterator of 1..4 pieces cut anywhere, so empty pieces occur) / a write of "
+        "no data (writeSequence([]), writeSequence(iter(())), writeSequence([b''] * 1..3), channel.write(b''), Request.write(b'')) that ends "
+        "the application's step, so that the send loop turns before anything else is queued on the stream; "
+        "10..160 tape-chosen events among: network move (with cut), send-loop tick (with time passing), new request, "
         "application write/finish, WINDOW_UPDATE (stream or connection, 1..200000), SETTINGS (INITIAL_WINDOW_SIZE 0..300000 and/or "
         "MAX_FRAME_SIZE 16384..1000000, one un-ACKed at a time), PRIORITY (weight), quiescence check with the resumption oracle, and stream "
         "removal: client RST_STREAM (knob: never / streams whose response headers arrived / any requested stream; earlier client bytes are "
@@ -117,6 +124,11 @@ ASSUMPTIONS = [
     "the `priority` dependency is the vendored stub; PRIORITY frames only change weights (no dependencies), since the statement does not quantify over priorities",
     "requests are GET without body; the client never violates the protocol",
     "applications stop writing when notifyFinish reports the stream lost",
+    "an application that writes to its channel directly (ITransport.write / writeSequence of request.channel) has started the response first "
+    "(Request.write(b'') hands status and headers to the channel); a write of no data (empty sequence, empty piece, b'') is a legal argument of "
+    "every entry point and owes the client nothing: 'arbitrary amounts of data' includes none",
+    "settle() treats a send-loop turn that takes a piece off a stream's send queue as progress even when nothing reaches the wire (empty piece); "
+    "this reads the connection's private queues for pacing only, no verdict depends on it",
     "SETTINGS_MAX_FRAME_SIZE cannot go below 16384 (RFC 7540 6.5.2), so 'tiny' values are only explored for INITIAL_WINDOW_SIZE",
     "at most one un-ACKed SETTINGS frame of the client is in flight (the h2 client cannot attribute ACKs otherwise and would be a wrong referee)",
     "a client RST_STREAM never shares a dataReceived call with other frames (the statement quantifies over WINDOW_UPDATE and SETTINGS; on the "
@@ -311,6 +323,8 @@ class App:
         self.client_reset = False
         self.aborted = False
         self.producer = None
+        self.style = "plain"      # entry points of the response channel the application uses for its body (see emit)
+        self.started = False      # the response has been started (headers handed to the channel)
 
     def removed(self):
         """The stream was taken away (peer's RST_STREAM / aborted by the application): nothing is owed for it."""
@@ -333,19 +347,83 @@ class App:
 
     def write_chunk(self, big=False):
         h = self.h
+        sim = h.sim
         left = len(self.body) - self.pos
         if left <= 0:
             return False
+        how = "write"
+        if self.style != "plain":
+            how = sim.draw_weighted([("write", 3), ("seq", 4), ("nothing", 0 if big else 3)], "how")
+        if how == "nothing":
+            # a write of NO data: legal through every entry point, changes nothing the client can see, and the step ends here
+            # (whatever the server scheduled for this stream runs before the application queues anything else)
+            self.write_nothing()
+            return True
         n = min(left, self.maxchunk)
-        if n > 1 and not big and not h.sim.draw_bool(0.5, "partial"):
-            n = h.sim.draw_int(1, n, "chunk")
+        if n > 1 and not big and not sim.draw_bool(0.5, "partial"):
+            n = sim.draw_int(1, n, "chunk")
         data = self.body[self.pos:self.pos + n]
         self.pos += n
         self.nwrites += 1
-        h.sim.event("app-write", self.k, n)
-        with h.sim.guard("server-raised", "app"):
-            self.request.write(data)
+        if how == "write":
+            sim.event("app-write", self.k, n)
+            self.started = True
+            with sim.guard("server-raised", "app"):
+                self.request.write(data)
+            return True
+        # ITransport.writeSequence of the request's channel: the same bytes as 1..4 pieces (some possibly empty), handed over
+        # as a list, a tuple or a one-shot iterator
+        npieces = sim.draw_choice([1, 2, 3, 4], "npieces")
+        cuts = sorted(sim.draw_int(0, n, "piece-cut") for _ in range(npieces - 1))
+        pieces = [data[a:b] for a, b in zip([0] + cuts, cuts + [n])]
+        self.nwrites += len(pieces) - 1
+        form = sim.draw_choice(["list", "iter", "tuple"], "seq-form")
+        self.start_response()
+        sim.event("app-write-seq", self.k, form, *[len(x) for x in pieces])
+        sim.probe("write_sequence")
+        if any(not x for x in pieces):
+            sim.probe("write_sequence_with_empty_piece")
+        seq = pieces if form == "list" else tuple(pieces) if form == "tuple" else iter(pieces)
+        with sim.guard("server-raised", "app"):
+            self.request.channel.writeSequence(seq)
         return True
+
+    def start_response(self):
+        """Hand status line and headers to the channel before writing to the channel directly (Request.write of no data)."""
+        if not self.started:
+            self.started = True
+            self.h.sim.event("app-start", self.k)
+            with self.h.sim.guard("server-raised", "app"):
+                self.request.write(b"")
+
+    def write_nothing(self):
+        sim = self.h.sim
+        kind = sim.draw_choice(["seq-empty-list", "write-empty", "seq-empty-iter", "seq-of-empties", "channel-write-empty"], "nothing")
+        if kind != "write-empty":
+            self.start_response()
+        sim.event("app-write-nothing", self.k, kind)
+        sim.probe("write_nothing_" + kind.replace("-", "_"))
+        led = self.h.ledger.st.get(self.sid)
+        if led is not None and self.pos == led["sent"] and self.h.ledger.eff(led) > 0:
+            sim.probe("write_nothing_on_idle_stream_with_open_window")
+        if kind == "write-empty":
+            self.started = True
+            with sim.guard("server-raised", "app"):
+                self.request.write(b"")
+            return
+        channel = self.request.channel
+        with sim.guard("server-raised", "app"):
+            if kind == "seq-empty-list":
+                channel.writeSequence([])
+            elif kind == "seq-empty-iter":
+                channel.writeSequence(iter(()))
+            elif kind == "seq-of-empties":
+                k = sim.draw_choice([1, 2, 3], "nempties")
+                self.nwrites += k           # each empty piece may cost the send loop one turn (drain budget)
+                channel.writeSequence([b""] * k)
+            else:
+                self.nwrites += 1
+                channel.write(b"")
 
     def finish(self):
         h = self.h
@@ -580,6 +658,9 @@ class Harness:
                "aborts": sim.draw_bool(0.3, "aborts"),                # applications may abort their stream (channel.abortConnection)
                "resume_check": sim.draw_bool(0.75, "resume_check"),   # evaluate the resumption oracle at quiescent points
                "prio": sim.draw_bool(0.3, "prio"),
+               # applications may hand their body to the channel through its other ITransport entry points (writeSequence of
+               # lists / tuples / iterators of 0..4 pieces, empty pieces) and may write no data at all (empty sequence, b"")
+               "entry_points": sim.draw_bool(0.5, "entry_points"),
                "nops": sim.draw_int(10, 160, "nops")}
         if os.environ.get("VERIF_C29_RESETS"):      # dev-time only (sensitivity runs on a patched copy): force the knob
             cfg["resets"] = os.environ["VERIF_C29_RESETS"]
@@ -618,9 +699,11 @@ class Harness:
             app.maxchunk = mc
             app.eager = cfg["eager"] and sim.draw_bool(0.7, "eager1")
             app.sync = sim.draw_choice([0, 1, 2, 9], "sync")   # chunks written synchronously inside process(); 9 = everything + finish
+            # entry points used for the body: Request.write only, or a mix of Request.write, channel.writeSequence and writes of no data
+            app.style = sim.draw_choice(["plain", "mixed"], "style") if cfg["entry_points"] else "plain"
             self.apps.append(app)
             self.app_by_sid[app.sid] = app
-            cfg.setdefault("streams", []).append([L, app.mode, mc if mc < (1 << 30) else "all", int(app.eager), app.sync])
+            cfg.setdefault("streams", []).append([L, app.mode, mc if mc < (1 << 30) else "all", int(app.eager), app.sync, app.style])
 
         # deterministic stand-in for the global cooperator (its default slice is 10 ms of wall clock)
         self._old_coop = task._theCooperator
@@ -873,9 +956,9 @@ class Harness:
                 progressed = True
             if self.clock.pending():
                 # due calls first; otherwise time passes to the next timer (pull producers run on the cooperator's timer)
-                before = (len(self.link.a.written), self.progress_mark())
+                before = (len(self.link.a.written), self.progress_mark(), self.queue_mark())
                 self.tick(1e-6)
-                if (len(self.link.a.written), self.progress_mark()) != before or self.link.enabled():
+                if (len(self.link.a.written), self.progress_mark(), self.queue_mark()) != before or self.link.enabled():
                     progressed = True
             elif not progressed:
                 break
@@ -895,6 +978,17 @@ class Harness:
             if dc.func is self._loop_wrapper:
                 return "running"
         return "dead"
+
+    def queue_mark(self):
+        """Pacing of settle() only, never part of a verdict (reads private state of the connection): the number of pieces
+        in each stream's send queue.  A turn of the send loop that consumes an EMPTY piece puts nothing on the wire, yet it
+        is progress: without this, a few empty pieces queued behind other streams spinning on closed windows would use up
+        the patience of settle() and the resumption oracle would be evaluated before the loop has got to the data."""
+        queues = getattr(self.server, "_outboundStreamQueues", None)
+        try:
+            return tuple(sorted((sid, len(q)) for sid, q in queues.items()))
+        except Exception:
+            return ()
 
     def progress_mark(self):
         return tuple((a.pos, a.finished, a.registered) for a in self.apps)
@@ -961,7 +1055,8 @@ class Harness:
         for app in self.apps:
             if app.requested and not app.removed():
                 left = len(app.body) - app.pos
-                frames += app.nwrites + (left + app.maxchunk - 1) // max(1, app.maxchunk) + len(app.body) // 16384 + 4
+                per_write = 1 if app.style == "plain" else 4      # writeSequence: one DATA frame per piece
+                frames += app.nwrites + per_write * ((left + app.maxchunk - 1) // max(1, app.maxchunk)) + len(app.body) // 16384 + 4
         budget = 200 + 8 * frames
         rounds = 0
         while not self.all_done():
@@ -1119,6 +1214,13 @@ MUTANTS = [
     "M23 abortRequest: _requestDone() dropped -> caught (server-raised:send-loop:StreamClosedError); needs the application-abort family",
     "M21 _sendPrioritisedData keeps the stream it picked across a transport pause (seeded change r4b) -> caught once streams can go away "
     "while the transport is paused (server-raised:send-loop:KeyError / StreamClosedError); survived before (no stream removal at all)",
+    "M24 H2Stream.writeSequence batched into one queue.extend() + one round of flow-control bookkeeping (seeded change r5a): an empty sequence "
+    "unblocks a stream that has nothing queued -> caught once applications use the channel's writeSequence and write no data "
+    "(server-raised:send-loop:IndexError, liveness); survived before (Request.write was the only entry point, never empty)",
+    "M25 H2Stream.writeSequence: reversed(list(iovec)) -> caught (body-order); needs the writeSequence family",
+    "M27 H2Stream.writeSequence stops at the first empty piece -> caught (body-complete / body-order, frame log)",
+    "M26 writeDataToStream: empty data returns early without queueing, before the flow-control bookkeeping -> survives, as it should "
+    "(nothing is owed for a write of no data)",
     "M19 _tryToWriteControlData: always writes directly (ignores transport back-pressure for control frames) -> survived; back-pressure towards the "
     "transport is outside the statement",
 ]
